@@ -57,6 +57,7 @@ class frequent_items_sketch {
 public:
 
   static const uint8_t LG_MIN_MAP_SIZE = 3;
+  static const uint8_t LG_MAX_MAP_SIZE = 30; // table sizes are 32-bit
 
   /**
    * Construct this sketch with parameters lg_max_map_size and lg_start_map_size.
